@@ -30,6 +30,7 @@ def classify(res, r, e, o):
 
 
 def correspond(res, tier, seed):
+    cc.regen_check(res)   # the generated codec files are what the generator produces from the table
     cc.run_stream(res, 'TestVerifC11', tier, seed, classify, lambda r, e: e == 'err' or e.count('(') > 6)
     res.extra['programs'] = res.extra.get('types_covered')
 
